@@ -17,6 +17,12 @@ CHECKS = {
  "C13": dict(cat="exploration", tech="list-model oracle over exhaustively enumerated operation sequences and random histories; porcupine linearizability check of concurrent histories",
    text="Every register/ack/collect sequence up to depth 6 (ids {1,2}) and 5 (ids {1,2,3}) is executed on a fresh real queue and compared with a FIFO list model incl. byte-identity of the copies; long random histories exercise growth and wrap; concurrent histories are checked with porcupine. Bounded exhaustive + sampling.",
    note="trusted: the 60-line list model; porcupine v1.3.0", ref="3/C13"),
+ "C14": dict(cat="exploration", tech="stream-position oracle on the real ring (every obtained byte verified at its committed offset), enumerated op x offset x chunk matrix, concurrent SPSC stress incl. Go race detector",
+   text="All producer-op x consumer-op x wrap-position x chunk-size cells are executed single-threaded, then hundreds of MiB are moved between a producer and a consumer goroutine with seeded op mixes at three GOMAXPROCS values, with peeked slices re-verified before commit; the same workload runs under -race. Held on the executions run.",
+   note="SPSC use as in the service; blocks/wraps/peek counts are reported from the pre-Wait hooks", ref="3/C14"),
+ "C15": dict(cat="fault_enumeration", tech="enumerated state x operation x event x timing matrix on the real ring with yield-hook steering; stuck calls decided from goroutine state snapshots; later-calls probe",
+   text="583 applicable cells of the blocking matrix are executed; yield hooks place Close / commits exactly in the check-to-Wait window and before the Lock; afterwards every exported method is probed. A parked call with no enabled waker (two identical all-parked snapshots) is the witness.",
+   note="liveness restated as absence of stuck states on the enumerated matrix; deadlines are only watchdogs", ref="3/C15"),
 }
 PENDING = {}
 ALL = ["C%02d" % i for i in range(1, 21)]
